@@ -1,0 +1,15 @@
+//go:build verif
+
+// Contracts for the deductive checker in /verif (comment-only; compiled only with -tags verif).
+package sorter
+
+//@ func (*Sorter).AddRow
+//@   trusted
+//@   modifies s.*
+
+// The CSV is read with the reader options under which encoding/csv returns every cell unaltered
+// (the assumed contract of csv.Reader.Read in /verif/spec/csv.spec has them as its precondition).
+//@ func (*Sorter).SortFile
+//@   props C01
+//@   requires f != nil
+//@   loop 1 invariant r != nil && !r.TrimLeadingSpace && !r.LazyQuotes && r.Comment == 0
